@@ -115,8 +115,11 @@ func (c *Ctx) stringHelperClass(fn *types.Func) (class, why string) {
 // encBufString: t is <buffer>.String() (or string(<buffer>.Bytes())) of the buffer the helper's encoder writes.
 func encBufString(c *Ctx, t Term, bufT Term) bool {
 	t = c.normByteStrings(t)
+	if cv, isCv := t.(TConv); isCv && (isStringType(cv.To) || isByteSlice(cv.To)) {
+		t = cv.X // string(buf.Bytes()) / []byte(buf.String()): the same text
+	}
 	bs, ok := t.(TCall)
-	return ok && bufT != nil && bs.Fun != nil && bs.Fun.Name() == "String" && bs.Recv != nil && len(bs.Args) == 0 && sameBuffer(bs.Recv, bufT)
+	return ok && bufT != nil && bs.Fun != nil && (bs.Fun.Name() == "String" || bs.Fun.Name() == "Bytes") && bs.Recv != nil && len(bs.Args) == 0 && sameBuffer(bs.Recv, bufT)
 }
 
 // encCond: truth of a condition over the encoder's output E = <encoded>+"\n" / over the encoder's error (T, F) or U.
@@ -319,6 +322,11 @@ func (c *Ctx) encoderPath(p *Path, par types.Object) (class, why string, feasibl
 		return "", "helper matches no accepted encoder shape", true
 	}
 	// the returned text is E without its final "\n": TrimSuffix/TrimRight(E, "\n") or E[:len(E)-1]
+	if cv, ok := ret.(TConv); ok && isStringType(cv.To) {
+		if _, isSl := cv.X.(TSlice); isSl {
+			ret = cv.X // string(E-as-bytes[:n])
+		}
+	}
 	if sl, ok := ret.(TSlice); ok && sl.Max == nil && encBufString(c, sl.X, bufT) {
 		lo0 := sl.Lo == nil
 		if k, ok := constInt(sl.Lo); sl.Lo != nil && ok && k == 0 {
